@@ -530,6 +530,16 @@ func (nm *NodeMachine) Apply(op NOp) error {
 				return err
 			}
 			nm.Stat["play"]++
+			if len(oldPool) > 0 {
+				nm.Stat["play-with-pending"]++
+				for _, bt := range nm.BlockTxs[t] {
+					for _, pt := range oldPool {
+						if bytes.Equal(bt.Txid, pt.Txid) {
+							nm.Stat["play-confirming-pending"]++
+						}
+					}
+				}
+			}
 		} else {
 			if err == nil {
 				return fmt.Errorf("PlayAndRepost(%s) succeeded although the block is not valid on its parent's state", m.Blocks[t].Label)
